@@ -108,6 +108,15 @@ def _h_allowed_keys(n: int) -> bool:
 def _allowed_keys(n, a, b):
     ok = _rxn(str(n) + " " + a + " -> B", [a, "B"])
     good = _plain(ok.reac) == {a: n}
+    # the allowed keys as ONE whitespace-separated string (blanks, a line break, a tab, trailing newline): same keys, same answers
+    ks = "Q1 " + a + "\nB\tQ2 Q3\n"
+    ok2 = _rxn(str(n) + " " + a + " -> B", ks)
+    good = good and _plain(ok2.reac) == {a: n} and _plain(ok2.prod) == {"B": 1}
+    try:
+        _rxn(str(n) + " " + b + " -> B", ks)
+        return False
+    except ValueError:
+        pass
     for s in (str(n) + " " + b + " -> B", a + " -> " + str(n) + " " + b, a + " + (" + str(n) + " " + b + ") -> B"):
         try:
             _rxn(s, [a, "B"])
